@@ -27,7 +27,9 @@ def opTokens (ops : List String) : List Token :=
   ops.filterMap fun op =>
     match (splitOp op).2 with
     | ["do", _, t, _] => (parseTok t).bind id
+    | ["auto", _, t, _] => (parseTok t).bind id
     | ["peer", _, t, _, _] => (parseTok t).bind id
+    | ["peer", _, t, _, _, _] => (parseTok t).bind id
     | ["blk", t, _, _, _] => (parseTok t).bind id
     | ["blkc", t, _, _, _] => (parseTok t).bind id
     | ["blkp", t, _, _] => (parseTok t).bind id
@@ -36,7 +38,8 @@ def opTokens (ops : List String) : List Token :=
     | _ => none
 
 def injective (toks : List Token) : Bool :=
-  toks.all fun a => toks.all fun b => a = b || crc64 a ≠ crc64 b
+  let hs := toks.eraseDups.map fun t => (t, crc64 t)      -- every key computed once (long runs name a thousand tokens)
+  hs.all fun a => hs.all fun b => a.2 ≠ b.2 || a.1 = b.1
 
 /-- run to quiescence: drain the queue, then let every caller that can return do so -/
 def settle (cfg : Cfg) (s : State) : State := Id.run do
@@ -75,6 +78,36 @@ def segment (tx : List String) (s0 s1 : State) : String :=
   let ev := tx ++ rets ++ dfl
   if ev.isEmpty then "-" else String.intercalate "," ev
 
+/-- `settle` / `segment` over the callers that can still move: a caller that has returned stays as it is (`finish`, `leave`), so only
+    the callers that had not returned before the op and the ones the op started are looked at (long runs: thousands of exchanges on one
+    connection stay linear per op) -/
+def settleOn (cfg : Cfg) (s : State) (cands : List Nat) : State := Id.run do
+  let mut s := s
+  for _ in [0:s.queue.length + 1] do
+    s := step crc64 cfg s .process
+  for c in cands do
+    s := step crc64 cfg s (.ret c)
+    s := step crc64 cfg s (.retClosed c)
+  return s
+
+def segmentOn (tx : List String) (s0 s1 : State) (cands : List Nat) : String :=
+  let rets := (sortNat cands).filterMap fun c =>
+    match s1.callers c with
+    | some cl =>
+      let before := match s0.callers c with | some cl0 => cl0.res.isSome | none => false
+      match cl.res with
+      | some r => if before then none else some (resStr c r)
+      | none => none
+    | none => none
+  let dfl := (s1.dflt.drop s0.dflt.length).map fun m => s!"dflt:{toHex m.tok}:{if m.tag.isEmpty then "-" else m.tag}"
+  let ev := tx ++ rets ++ dfl
+  if ev.isEmpty then "-" else String.intercalate "," ev
+
+def stillLive (s : State) (cands : List Nat) : List Nat :=
+  cands.filter fun c => match s.callers c with
+    | some cl => cl.res.isNone
+    | none => false
+
 def resolveMid (s : State) (sm : String) : Nat :=
   if sm.startsWith "@" then
     match (sm.drop 1).toString.toNat? with
@@ -92,6 +125,10 @@ def normOp (udp : Bool) (f : List String) : List String :=
   | ["obs", c, t] => ["do", c, t, "con"]
   | ["onote", t, m, _, tag] => ["peer", if !udp then "resp" else if m.startsWith "@" then "pig" else "non", t, m, tag]
   | ["blkp", t, m0, tag] => ["blk", t, m0, m0, tag]
+  -- a request whose token the library chose (the check fills in the token seen on the wire) is registered like any other; a
+  -- message the peer produced for a named request (`for<c>`) arrives like any other
+  | ["auto", c, t, typ] => ["do", c, t, typ]
+  | ["peer", k, t, m, tag, _] => ["peer", k, t, m, tag]
   | _ => f
 
 /-- apply one op; returns the new state and the `tx` events it causes -/
@@ -143,6 +180,8 @@ def applyOp (cfg : Cfg) (s : State) (f : List String) : Option (State × List St
   -- a slow socket for the connection's empty ACKs: nothing the token table or the history sees
   | ["gate"] => some (s, [])
   | ["open"] => some (s, [])
+  -- tokens drawn from the generator and not used: nothing the token table sees
+  | ["draw", _] => some (s, [])
   | _ => none
 
 /-- does the step of caller `c` leaving (return, cancel, close) erase a table entry that belongs to another caller? -/
@@ -162,17 +201,18 @@ def classify (line : String) : String :=
   | ["disc", "duptoken"] => "-"
   | "scn" :: tr :: bw :: ops =>
     let cfg : Cfg := ⟨tr == "udp", bw == "1"⟩
-    let (_, flag) := ops.foldl (fun (acc : State × Bool) op =>
-      let (s, flag) := acc
+    let (_, flag, _) := ops.foldl (fun (acc : State × Bool × List Nat) op =>
+      let (s, flag, live) := acc
       match applyOp cfg s (normOp cfg.udp (splitOp op).2) with
       | some (s1, _) =>
+        let cands := live ++ s1.order.drop s.order.length
         -- quiescence, step by step, watching the leaving callers
         let (s2, fl) := Id.run do
           let mut s := s1
           let mut fl := flag
           for _ in [0:s.queue.length + 1] do
             s := step crc64 cfg s .process
-          for c in s.order do
+          for c in cands do
             if erasesForeign s c then fl := true
             s := step crc64 cfg s (.ret c)
             s := step crc64 cfg s (.retClosed c)
@@ -184,8 +224,8 @@ def classify (line : String) : String :=
                   | none => false)
               | none => false)
           | _ => fl
-        (s2, fl)
-      | none => (s, flag)) (init, false)
+        (s2, fl, stillLive s2 cands)
+      | none => (s, flag, live)) (init, false, [])
     if flag then "erases-successor" else "-"
   | _ => "bad-op"
 
@@ -199,13 +239,14 @@ def model (line : String) : String :=
     if tr != "udp" && tr != "tcp" then "bad-op" else
     let cfg : Cfg := ⟨tr == "udp", bw == "1"⟩
     let inj := if injective (opTokens ops) then "inj=1" else "inj=0"
-    let (_, segs, bad) := ops.foldl (fun (acc : State × List String × Bool) op =>
-      let (s, segs, bad) := acc
+    let (_, segs, bad, _) := ops.foldl (fun (acc : State × List String × Bool × List Nat) op =>
+      let (s, segs, bad, live) := acc
       match applyOp cfg s (normOp cfg.udp (splitOp op).2) with
       | some (s1, tx) =>
-        let s2 := settle cfg s1
-        (s2, segs ++ [segment tx s s2], bad)
-      | none => (s, segs, true)) (init, [inj], false)
+        let cands := live ++ s1.order.drop s.order.length
+        let s2 := settleOn cfg s1 cands
+        (s2, segs ++ [segmentOn tx s s2 cands], bad, stillLive s2 cands)
+      | none => (s, segs, true, live)) (init, [inj], false, [])
     if bad then "bad-op" else String.intercalate ";" segs
   | _ => "bad-op"
 
@@ -226,8 +267,23 @@ def history (udp : Bool) (ops : List String) (segs : List String) : Option (List
   let mut seenCon : List String := []     -- message IDs of confirmable messages already sent: a repeat is a retransmission
   for op in ops do
     let (nowait, f0) := splitOp op
-    let f := normOp udp f0
+    let f := match f0 with
+      | ["auto", _, _, _] => f0
+      | ["peer", _, _, _, _, _] => f0
+      | _ => normOp udp f0
     match f with
+    | ["auto", c, t, typ] =>
+      let c ← c.toNat?
+      let t ← parseHex? t
+      hist := hist ++ [.startLib c t (!(udp && typ == "con"))]
+    | ["peer", k, t, m, tag, addr] =>
+      let t ← parseHex? t
+      let c ← (addr.drop 3).toString.toNat?
+      let retransmission := udp && k == "con" && seenCon.contains m
+      let sameMidNon := udp && k == "non" && seenCon.contains m
+      if udp && k == "con" then seenCon := m :: seenCon
+      if retransmission then hist := hist ++ [.again t tag]
+      else if k != "ack" && k != "rst" then hist := hist ++ [.peerFor c t tag (!sameMidNon)]
     | ["do", c, t, typ] =>
       let c ← c.toNat?
       let t ← parseTok t
